@@ -45,9 +45,9 @@ def _corrupt(evs):
 
 def plans(tier):
     if tier == "quick":
-        return [("d1-1d", 1, 6), ("d1-2d", 1, 16), ("d2-lean1", 1, 8), ("d2-lean2", 1, 32), ("d2-lean3", 1, 48), ("d1-win-q", 4, 3),
+        return [("d1-1d", 1, 6), ("d1-2d", 1, 16), ("d2-lean1", 1, 8), ("d2-lean2", 1, 32), ("d2-lean3", 1, 48), ("d1-win-q", 4, 3), ("d1-pad-udf", 16, 1),
                 ("d3-inplace-dmd", 1, 16), ("d3-inplace-ddm", 1, 32), ("d3-inplace-mmd", 1, 8), ("d2-inplace2", 1, 12)]
-    return [("d1-1d-wide", 3, 1), ("d1-2d", 3, 1), ("d2-lean1", 2, 1), ("d2-lean2", 1, 2), ("d2-lean3", 1, 2), ("d1-win", 32, 1),
+    return [("d1-1d-wide", 3, 1), ("d1-2d", 3, 1), ("d2-lean1", 2, 1), ("d2-lean2", 1, 2), ("d2-lean3", 1, 2), ("d1-win", 32, 1), ("d1-pad-udf", 16, 1),
             ("d3-inplace-dmd", 1, 1), ("d3-inplace-ddm", 1, 2), ("d3-inplace-mmd", 1, 1), ("d2-inplace2", 2, 1)]
 
 
